@@ -77,7 +77,7 @@ func rtHiccup(c *Ctx, e *wenv, addr, kind string, h int) {
 		return cl, d.(iface.Datatype)
 	}
 	a, _ := mk(0, nil)
-	defer a.Close()
+	defer closeSoon(a)
 	if err := a.Sync(); err != nil {
 		panic(fmt.Sprintf("first sync: %v", err))
 	}
@@ -93,7 +93,7 @@ func rtHiccup(c *Ctx, e *wenv, addr, kind string, h int) {
 		}, nil,
 		func(dt orda.Datatype, es ...errors.OrdaError) { mu.Lock(); errs += len(es); mu.Unlock() })
 	b, bd := mk(1, hs)
-	defer b.Close()
+	defer closeSoon(b)
 	e.mq.Outage(400 * time.Millisecond)
 	time.Sleep(60 * time.Millisecond) // the clients notice the lost connection; their first reconnect attempt is refused, the next comes a second later
 	_ = b.Sync()
@@ -180,8 +180,16 @@ func sliceRealtime(c *Ctx, kind string) {
 				w.desc = append(w.desc, fmt.Sprintf("client %d connects and subscribes-or-creates %v", i, keys))
 			}
 			defer func() {
+				// closing is housekeeping of the harness, not part of any property: after a broker hiccup the MQTT library's
+				// Disconnect can wait for ever for its workers (seen once in about eight runs); do not wait for it
 				for _, rc := range clients {
-					_ = rc.cl.Close()
+					done := make(chan struct{})
+					go func(cl orda.Client) { defer close(done); defer func() { _ = recover() }(); _ = cl.Close() }(rc.cl)
+					select {
+					case <-done:
+					case <-time.After(2 * time.Second):
+						c.Count("client-close-abandoned")
+					}
 				}
 			}()
 			cw := &world{c: c, kind: kind}
@@ -274,5 +282,16 @@ func sliceRealtime(c *Ctx, kind string) {
 		c.Res.Cases++
 		c.Distinct(strings.Join(w.desc, "|"), w.nontriv)
 		c.Sample(map[string]interface{}{"kind": kind, "script": w.desc})
+	}
+}
+
+// closeSoon closes a client without waiting for ever: after a broker outage the MQTT library's Disconnect can block on its
+// own workers; closing is housekeeping of the harness, not part of any property
+func closeSoon(cl orda.Client) {
+	done := make(chan struct{})
+	go func() { defer close(done); defer func() { _ = recover() }(); _ = cl.Close() }()
+	select {
+	case <-done:
+	case <-time.After(2 * time.Second):
 	}
 }
